@@ -226,10 +226,39 @@ def applyOp (j : Json) : R Json := withVec j "x" fun n x => do
   let M ← matf (n + 1) (n + 1) j "m"
   return ofVec (applyT M x)
 
+/-- the hypothesis predicates of the C12 theorems on a packaging / an entry point: `Pack.isRealNumeric`,
+`Pack.isInteger` (compared with NumPy's own view of the built object) and `Entry.floating` (compared with the
+harness table of entry points the property demands floating output for) -/
+def classifyOp (j : Json) : R Json := do
+  match j.getObjVal? "pack" with
+  | .ok pj =>
+    let p ← packOf pj
+    return Json.mkObj [("real", .bool p.isRealNumeric), ("integer", .bool p.isInteger)]
+  | .error _ =>
+    let e ← entryOf (← strf j "entry")
+    return Json.mkObj [("floating", .bool e.floating)]
+
+/-- `entryVal`: dtype and stored value of an entry point for a packaging of the number `v` -/
+def entryValOp (j : Json) : R Json := do
+  match entryVal id (← libOf j) (← entryOf (← strf j "entry")) (← packOf (← field j "pack")) (← qf j "v") with
+  | .ok (d, x) => return .arr #[.str (dtStr d), ofQ x]
+  | .error .typeError => throw "TypeError"
+
+/-- the call sites D16 / D17 as they were (`integer_type` left at its default): `fromAnglePinned`,
+`standardRotationPinned` -/
+def pinnedSiteOp (j : Json) : R Json := do
+  let L ← libOf j
+  let p ← packOf (← field j "pack")
+  match (← strf j "site") with
+  | "from_angle" => outDt (fromAnglePinned L p)
+  | "standard_rotation" => outDt (standardRotationPinned L p)
+  | s => throw s!"unknown pinned site {s}"
+
 def ops : List (String × Handler) :=
   [("c12.can_cast", canCastOp), ("c12.probe", probeOp), ("c12.promote", promoteOp), ("c12.is_linalg", isLinalgOp),
    ("c12.check_type", checkTypeOp), ("c12.array_like", arrayLikeOp), ("c12.zeros", zerosOp),
    ("c12.identity", identityOp), ("c12.number", numberOp), ("c12.entry_dtype", entryOp), ("c12.array_like_val", arrayLikeValOp),
+   ("c12.classify", classifyOp), ("c12.entry_val", entryValOp), ("c12.pinned_site", pinnedSiteOp),
    ("c12.affine", affineOp), ("c12.segment", segOp), ("c12.circle", circleOp),
    ("c12.utt", uttOp), ("c12.point_along", alongOp), ("c12.normalize", normalizeOp),
    ("c12.reflect", reflectOp), ("c12.apply", applyOp)]
